@@ -73,6 +73,9 @@ func (p cliPkg) sources() map[string]string {
 		f["wire.go"] = inj(fmt.Sprintf("func InitTop() *Top {\n\twire.Build(%s)\n\treturn nil\n}\n\nfunc InitBroken() *Top {\n\twire.Build(NewTop)\n\treturn nil\n}\n", all))
 	case "noinj":
 		// nothing
+	case "noinj-blank":
+		// no injectors, but a blank import in one of its files
+		f["side.go"] = fmt.Sprintf("package %s\n\nimport _ \"%s/blank\"\n", p.Name, ModPath)
 	case "noinj-badset":
 		f["sets.go"] = fmt.Sprintf("package %s\n\nimport \"github.com/google/wire\"\n\nvar Dup = wire.NewSet(NewT0, NewT0)\n", p.Name)
 	}
@@ -104,6 +107,8 @@ func (o cliOpts) flags(cmd string, root string) []string {
 			fl = append(fl, "-header_file", filepath.Join(root, "header.txt"))
 		case "unreadable":
 			fl = append(fl, "-header_file", filepath.Join(root, "no-such-header.txt"))
+		case "invalid":
+			fl = append(fl, "-header_file", filepath.Join(root, "badheader.txt"))
 		}
 	}
 	if (cmd == "gen" || cmd == "default") && o.Prefix != "" {
@@ -147,6 +152,8 @@ func (w *cliWorld) writeSkeleton(dir string) error {
 		"wiremod/go.mod":  "module github.com/google/wire\n\ngo 1.21\n",
 		"wiremod/wire.go": string(marker),
 		"header.txt":      "// Copyright header line 1\n// line 2\n\n",
+		"badheader.txt":   "Copyright (c) Example Corp. This line is not a Go comment.\n\n",
+		"blank/blank.go":  "package blank\n",
 		"README.txt":      "not a go file\n",
 	})
 }
@@ -182,7 +189,7 @@ func (w *cliWorld) run(cmd string, o cliOpts, patterns ...string) CmdResult {
 // freshContent returns what an isolated generation of package p on a pristine
 // checkout writes under the given options ("" if it generates nothing).
 func (w *cliWorld) freshContent(p cliPkg, o cliOpts) (string, error) {
-	if !p.generates() || o.Header == "unreadable" {
+	if !p.generates() || o.Header == "unreadable" || o.Header == "invalid" {
 		return "", nil
 	}
 	key := fmt.Sprintf("%s|%d|%s|%v|%s", p.Name, p.Variant, p.Kind, p.Tagged, cliOpts{Header: o.Header, Tags: o.Tags}.key())
